@@ -399,7 +399,7 @@ func syncOcc(o Occ) bool { return !o.Deferred && !o.Async }
 
 // Dominated: every path from the function entry to b passes one of the
 // (synchronous) occurrences in as first.
-func (f *Fn) Dominated(b Occ, as []Occ) OrderResult {
+func (f *Fn) Dominated(b Occ, as []Occ, ex ...Excuse) OrderResult {
 	g := f.G()
 	if b.V < 0 {
 		return OrderResult{OK: false, Why: "site not in control-flow graph"}
@@ -420,7 +420,7 @@ func (f *Fn) Dominated(b Occ, as []Occ) OrderResult {
 	if avoid[g.Entry] {
 		return OrderResult{OK: true}
 	}
-	p := g.pathAvoiding([]int{g.Entry}, func(v int) bool { return v == b.V }, avoid, true)
+	p := g.pathAvoidingE([]int{g.Entry}, func(v int) bool { return v == b.V }, avoid, true, g.excusedEdges(ex))
 	if p == nil {
 		return OrderResult{OK: true}
 	}
@@ -436,7 +436,7 @@ const (
 
 // Followed: every path from a to an exit of the selected kind passes one of xs
 // (a deferred x counts if its defer statement was executed before the exit).
-func (f *Fn) Followed(a Occ, xs []Occ, kind exitKind) OrderResult {
+func (f *Fn) Followed(a Occ, xs []Occ, kind exitKind, ex ...Excuse) OrderResult {
 	g := f.G()
 	if a.V < 0 {
 		return OrderResult{OK: false, Why: "site not in control-flow graph"}
@@ -476,7 +476,7 @@ func (f *Fn) Followed(a Occ, xs []Occ, kind exitKind) OrderResult {
 		// a is itself in the return statement (e.g. `return f(a())`): nothing can follow
 		p = []int{a.V}
 	} else {
-		p = g.pathAvoiding([]int{a.V}, goal, avoid, false)
+		p = g.pathAvoidingE([]int{a.V}, goal, avoid, false, g.excusedEdges(ex))
 	}
 	if p == nil {
 		return OrderResult{OK: true}
